@@ -36,6 +36,9 @@ deriving DecidableEq, Repr, Inhabited
 structure Part where
   col : Nat
   desc : Bool
+  /-- dialect attribute of the part (MySQL prefix length, PostgreSQL NULLS FIRST/LAST) as a token;
+  compared by `IndexPartAttrChanged`. -/
+  attr : Nat := 0
 deriving DecidableEq, Repr, Inhabited
 
 structure Idx where
